@@ -75,7 +75,7 @@ func projTrick(t *astits.DSMTrickMode) []interface{} {
 func projPESHeader(h *astits.PESHeader) M {
 	m := M{"sid": int(h.StreamID), "opt": []interface{}{}}
 	o := h.OptionalHeader
-	if o == nil || h.StreamID == astits.StreamIDPaddingStream || h.StreamID == astits.StreamIDPrivateStream2 {
+	if o == nil || noOptionalHeader(h.StreamID) {
 		return m
 	}
 	x := M{"scr": int(o.ScramblingControl), "prio": o.Priority, "align": o.DataAlignmentIndicator,
